@@ -274,11 +274,15 @@ func c16env(u int) map[string]*types.StructType {
 		a.TypeName, b.TypeName = `"7"`, `"007"`
 		a.Fields = []types.Type{types.I32}
 		b.Fields = []types.Type{types.I32}
+	case 7: // a name that begins and ends with a literal quote character next to the name between the quotes
+		a.TypeName, b.TypeName = `"a b"`, `a b`
+		a.Fields = []types.Type{types.I32}
+		b.Fields = []types.Type{types.I32}
 	}
 	return map[string]*types.StructType{"A": a, "B": b}
 }
 
-const c16universes = 7
+const c16universes = 8
 
 type c16case struct {
 	Universe int    `json:"universe"`
@@ -346,7 +350,7 @@ func runC16(c *fw.Check) {
 	for i, d := range ds {
 		canon[i] = d.canon()
 	}
-	c.Rule = fmt.Sprintf("type universe = all descriptors of constructor depth <=%d over {void,label,token,metadata,x86_mmx,i1,i8,i32,half,float,double, identified structs A,B} with pointers in 2 address spaces, fixed/scalable vectors of 2 lengths, arrays of 2 lengths, literal/packed structs and (variadic) function types of <=2 members; %d universes of bodies for A,B (opaque, plain, self-recursive, mutually recursive, same-body, recursion through function/array, names that read as numbers). For each universe two independent instance sets X,Y are built and Equal is evaluated on ALL ordered pairs X[i],Y[j] and X[i],X[j] against the descriptor identity (reflexive/symmetric/transitive follow from agreeing with an equivalence on all pairs); in the first universe also against instance sets whose leaves are the predeclared singleton types of package types (built in two orders; the predeclared types must be unchanged afterwards), and against sets whose non-struct types all carry the same type name, and pairwise different names (only structs are identified by name); each type is printed in a module, re-parsed, and the parsed type compared with ALL types; for every type of depth <=2, every node of its graph and every applicable in-place edit (width, kind, address space, length, scalability, packedness, variadicity, naming a literal struct, replacing an element type) the edited graph -- which has been compared before -- is compared with fresh instances of the edited and of the original type. distinct = ordered pairs.", depth, c16universes)
+	c.Rule = fmt.Sprintf("type universe = all descriptors of constructor depth <=%d over {void,label,token,metadata,x86_mmx,i1,i8,i32,half,float,double, identified structs A,B} with pointers in 2 address spaces, fixed/scalable vectors of 2 lengths, arrays of 2 lengths, literal/packed structs and (variadic) function types of <=2 members; %d universes of bodies for A,B (opaque, plain, self-recursive, mutually recursive, same-body, recursion through function/array, names that read as numbers, a name enclosed in literal quote characters next to the enclosed name). For each universe two independent instance sets X,Y are built and Equal is evaluated on ALL ordered pairs X[i],Y[j] and X[i],X[j] against the descriptor identity (reflexive/symmetric/transitive follow from agreeing with an equivalence on all pairs); in the first universe also against instance sets whose leaves are the predeclared singleton types of package types (built in two orders; the predeclared types must be unchanged afterwards), and against sets whose non-struct types all carry the same type name, and pairwise different names (only structs are identified by name); each type is printed in a module, re-parsed, and the parsed type compared with ALL types; for every type of depth <=2, every node of its graph and every applicable in-place edit (width, kind, address space, length, scalability, packedness, variadicity, naming a literal struct, replacing an element type) the edited graph -- which has been compared before -- is compared with fresh instances of the edited and of the original type. distinct = ordered pairs.", depth, c16universes)
 	c.Extra["types"] = n
 	for u := 0; u < c16universes; u++ {
 		envX, envY := c16env(u), c16env(u)
